@@ -16,7 +16,6 @@ package nilness_test
 
 import (
 	"fmt"
-	"sort"
 	"strings"
 )
 
@@ -93,8 +92,7 @@ type c15Op struct {
 	Arr     bool   // needs the local array `arr`
 	Callee  string // pool function called (name), "" otherwise
 	Cat     string // category of DESIGN's alphabet, for coverage counters
-	NoCond  bool
-	Generic bool // mentions X explicitly
+	Generic bool   // mentions X explicitly
 }
 
 var c15Ops []*c15Op
@@ -134,13 +132,10 @@ func c15Prod(cat string, tier, condTier int, w []int, r []int, f []int, text str
 	c15Add(&co)
 }
 
-func c15Recv(o *c15Op)   { o.Recv = true }
-func c15Glob(o *c15Op)   { o.Glob = true }
-func c15Arr(o *c15Op)    { o.Arr = true }
-func c15NoCond(o *c15Op) { o.NoCond = true }
-func c15NoKill(o *c15Op) { o.Kill = false }
-func c15Gen(o *c15Op)    { o.Generic = true }
-func c15CondT1(o *c15Op) {} // marker kept for readability
+func c15Recv(o *c15Op) { o.Recv = true }
+func c15Glob(o *c15Op) { o.Glob = true }
+func c15Arr(o *c15Op)  { o.Arr = true }
+func c15Gen(o *c15Op)  { o.Generic = true }
 
 func c15Refine(cat string, tier int, v int, text string, mods ...func(*c15Op)) {
 	name := strings.ReplaceAll(strings.ReplaceAll(text, " ", ""), "§", "")
@@ -328,6 +323,8 @@ func init() {
 	// a case listing several types binds a value of the switched-over (interface) type
 	c15Add(&c15Op{Name: "a=nil;tswitch(i){*T,NS:a=y}", Text: "a = nil\n\tswitch y := i.(type) {\n\tcase *§T, §NS:\n\t\ta = y\n\t}",
 		W: c15S(kA), R: c15S(kI), Kill: true, CtlVar: -1, Tier: 0, Cat: "typeswitch"})
+	c15Add(&c15Op{Name: "p=fresh;tswitch(a){*T:p=y}", Text: "p = &§T{}\n\tswitch y := a.(type) {\n\tcase *§T:\n\t\tp = y\n\t}",
+		W: c15S(kP), R: c15S(kA), Kill: true, CtlVar: -1, Tier: 0, Cat: "typeswitch"})
 	c15Add(&c15Op{Name: "tswitch(i){nil,*T:ret}", Text: "switch y := i.(type) {\n\tcase nil, *§T:\n\t\t_ = y\n\t\t«RET»\n\t}",
 		R: c15S(kI), F: c15S(kI), Ctl: true, CtlVar: kI, Tier: 0, Cat: "typeswitch"})
 	c15Add(&c15Op{Name: "a=fresh;tswitch(i){nil,*T:a=y}", Text: "a = &§T{}\n\tswitch y := i.(type) {\n\tcase nil, *§T:\n\t\ta = y\n\t}",
@@ -734,9 +731,10 @@ func c15Relevant(o *c15Op, live, res c15Set) bool {
 	}
 }
 
-// c15Enumerate calls emit for every function of the bounded space, smallest first.
-// The order is: number of statements, result signature, statement sequence (built backwards),
-// shape, package. emit returns false to stop.
+// c15Enumerate calls emit for every function of the bounded space, smallest first. The order is:
+// weight (number of statements, plus one for the named-result/defer shapes; plain functions
+// first), result signature, statement sequence (built backwards), shape, package. emit returns
+// false to stop.
 func c15Enumerate(b c15Bounds, emit func(sp c15Spec) bool) {
 	var sigs [][]int
 	for _, k := range b.ResSingle {
@@ -747,7 +745,24 @@ func c15Enumerate(b c15Bounds, emit func(sp c15Spec) bool) {
 	}
 	n := 0
 	stop := false
-	for size := 0; size <= b.MaxStmts && !stop; size++ {
+	type phase struct {
+		size   int
+		shaped bool
+	}
+	var phases []phase
+	for w := 0; w <= b.MaxStmts+1; w++ {
+		if w <= b.MaxStmts {
+			phases = append(phases, phase{w, false})
+		}
+		if w >= 1 && w-1 <= b.ShapesUpTo && w-1 <= b.MaxStmts {
+			phases = append(phases, phase{w - 1, true})
+		}
+	}
+	for _, ph := range phases {
+		if stop {
+			break
+		}
+		size := ph.size
 		opsFor := func(tier int) []*c15Op {
 			var ops []*c15Op
 			for _, o := range c15Ops {
@@ -795,8 +810,11 @@ func c15Enumerate(b c15Bounds, emit func(sp c15Spec) bool) {
 					}
 					_ = usesX
 					shapes := []int{0}
-					if size <= b.ShapesUpTo && maxTier <= b.ShapeTier && !hasC {
-						shapes = []int{0, 1, 2, 3, 4}
+					if ph.shaped {
+						shapes = nil
+						if maxTier <= b.ShapeTier && !hasC {
+							shapes = []int{1, 2, 3, 4}
+						}
 					}
 					for _, sh := range shapes {
 						pkgs := []string{"lib", "client"}
@@ -863,17 +881,4 @@ func c15Bound(thorough bool) c15Bounds {
 		return c15Bounds{MaxStmts: 4, TierBySize: []int{3, 3, 2, 1, 0}, PairTier: []int{3, 3, 1, 0, -1}, ResSingle: all, ResPairs: pairs, ShapesUpTo: 2, ShapeTier: 1}
 	}
 	return c15Bounds{MaxStmts: 3, TierBySize: []int{3, 3, 1, 0}, PairTier: []int{3, 3, 0, -1}, ResSingle: all, ResPairs: pairs, ShapesUpTo: 1, ShapeTier: 1}
-}
-
-func c15SortedCats() []string {
-	m := map[string]bool{}
-	for _, o := range c15Ops {
-		m[o.Cat] = true
-	}
-	var out []string
-	for c := range m {
-		out = append(out, c)
-	}
-	sort.Strings(out)
-	return out
 }
